@@ -1,6 +1,6 @@
 package index
 
-// OPEN finding (C06, known-findings.json kind finding-unchecked). Derived from the differential probe for C06-m/C02-p: a query that uses tag filters — in the main
+// Differential probe for C06-o/C02-s (#70; it also covers C06-m/C02-p, #68): a query that uses tag filters — in the main
 // query and inside sub-queries, on tags that have sub-queries of their own — must give the same answer while the tags
 // are pending for every stream (their conditions are inlined and evaluated on demand) as when they are decided.
 // copy into internal/index
@@ -9,18 +9,17 @@ import (
 	"context"
 	"fmt"
 	"math/rand"
-	"strings"
 	"testing"
 	"time"
 
 	"github.com/spq/pkappa2/internal/query"
 )
 
-func TestOpenNegatedPendingTagWithOwnSubQuery(t *testing.T) {
+func TestProbeAllTagsPendingVsDecided(t *testing.T) {
 	t0 := time.Date(2020, 1, 1, 12, 0, 0, 0, time.UTC)
 	failures := 0
 	total, nonEmpty, skipped := 0, 0, map[string]int{}
-	for seed := int64(0); seed < 300 && failures < 6; seed++ {
+	for seed := int64(0); seed < 600 && failures < 6; seed++ {
 		rng := rand.New(rand.NewSource(seed))
 		n := 3 + rng.Intn(5)
 		streams := map[uint64]streamInfo{}
@@ -87,6 +86,14 @@ func TestOpenNegatedPendingTagWithOwnSubQuery(t *testing.T) {
 			case 1:
 				def = atom("@x:") + " " + link("", "x") + " " + def
 			}
+			if i == 1 {
+				switch rng.Intn(4) {
+				case 0:
+					def += " tag:t0"
+				case 1:
+					def += " -tag:t0"
+				}
+			}
 			tagDefs[fmt.Sprintf("tag/t%d", i)] = def
 		}
 		search := func(qs string, tags map[string]query.TagDetails) ([]uint64, error) {
@@ -106,14 +113,15 @@ func TestOpenNegatedPendingTagWithOwnSubQuery(t *testing.T) {
 		}
 		decided, pending := map[string]query.TagDetails{}, map[string]query.TagDetails{}
 		ok := true
-		for name, def := range tagDefs {
+		for _, name := range []string{"tag/t0", "tag/t1"} {
+			def := tagDefs[name]
 			q, err := query.Parse(def)
 			if err != nil {
 				skipped["tag parse"]++
 				ok = false
 				break
 			}
-			ids, err := search(def, nil)
+			ids, err := search(def, decided)
 			if err != nil {
 				skipped["tag search: "+err.Error()]++
 				ok = false
@@ -139,10 +147,6 @@ func TestOpenNegatedPendingTagWithOwnSubQuery(t *testing.T) {
 		for qi := 0; qi < 12; qi++ {
 			tn := fmt.Sprintf("t%d", rng.Intn(2))
 			neg := []string{"", "-"}[rng.Intn(2)]
-			if !strings.Contains(tagDefs["tag/"+tn], "@x:") {
-				continue // only the open case: a NEGATED filter on a pending tag whose definition has a sub-query of its own
-			}
-			neg = "-"
 			var qs string
 			switch rng.Intn(5) {
 			case 0: // in the main query
